@@ -1,3 +1,13 @@
--- This module serves as the root of the `Abyss` library.
--- Import modules here that should be built as part of the library.
-import Abyss.Basic
+-- root of the `Abyss` library: the model, the lemmas and the property theorems
+import Abyss.Vu64
+import Abyss.Gen.Consts
+import Abyss.Gen.Funcs
+import Abyss.Assoc
+import Abyss.Hash
+import Abyss.RecFile
+import Abyss.Store
+import Abyss.Scan
+import Abyss.Stats
+import Abyss.Render
+import Abyss.Spec
+import Abyss.Ops
